@@ -324,6 +324,7 @@ private:
     vec<PTRef> frameTerms;
     std::size_t firstNotSimplifiedFrame = 0;
     unsigned int insertedFormulasCount = 0;
+    bool theoryModelComputed = false; // the theory solvers computed their model at the last check-sat
 };
 
 bool MainSolver::trackPartitions() const {
